@@ -298,6 +298,19 @@ type vfWorldConf struct {
 	HTTPRegister func(method, url string, handler http.HandlerFunc)
 }
 
+// vfListenIP is the loopback address the servers of this process listen on.
+// dnsproxy sets SO_REUSEPORT on its sockets, and with it the kernel may hand a
+// port that a server of another process (another shard, another check) already
+// has to a server that asks for any free port; datagrams and connections are
+// then spread over both servers.  Every process therefore listens on a
+// loopback address of its own (127.<1..64>.<pid bits>), where a port cannot be
+// shared with another process.
+func vfListenIP() (ip net.IP) {
+	pid := os.Getpid()
+
+	return net.IPv4(127, byte(1+(pid>>16)&0x3f), byte(pid>>8), byte(pid))
+}
+
 // vfWorld is a built world.
 type vfWorld struct {
 	dir     string
@@ -622,8 +635,8 @@ func vfNewWorld(c *vfWorldConf) (w *vfWorld, err error) {
 	}
 
 	sconf := &ServerConfig{
-		UDPListenAddrs: []*net.UDPAddr{{IP: net.IPv4(127, 0, 0, 1)}},
-		TCPListenAddrs: []*net.TCPAddr{{IP: net.IPv4(127, 0, 0, 1)}},
+		UDPListenAddrs: []*net.UDPAddr{{IP: vfListenIP()}},
+		TCPListenAddrs: []*net.TCPAddr{{IP: vfListenIP()}},
 		TLSConf:        &TLSConfig{ServerName: c.ServerName, StrictSNICheck: c.StrictSNI},
 		Config: Config{
 			ClientsContainer:  clientsContainer,
@@ -645,7 +658,7 @@ func vfNewWorld(c *vfWorldConf) (w *vfWorld, err error) {
 	}
 	if c.TLSCert != nil {
 		sconf.TLSConf.Cert = c.TLSCert
-		sconf.TLSConf.TLSListenAddrs = []*net.TCPAddr{{IP: net.IPv4(127, 0, 0, 1)}}
+		sconf.TLSConf.TLSListenAddrs = []*net.TCPAddr{{IP: vfListenIP()}}
 	}
 	err = w.srv.Prepare(sconf)
 	if err != nil {
